@@ -163,7 +163,8 @@ def inputs_for(v, prop, tier, tag):
             items.append({"tag": "flood-" + name, "repeat": {"unit": B(unit), "count": total // len(unit)}})
         rnd.shuffle(items)
     elif prop == "C15":
-        endings = ["close", "half-frame", "half-frame-open", "malformed", "garbage", "panic", "store-error", "rst-in-backlog"]
+        endings = ["close", "half-frame", "half-frame-open", "malformed", "garbage", "panic", "store-error", "rst-in-backlog",
+                   "accept-error", "rejected-plus-half"]
         for mx in (1, 2, 3):
             for e in endings:
                 items.append({"max": mx, "endings": [e]})
